@@ -57,7 +57,15 @@ def build(case):
     M, c, pat, kind = case
     n = len(M)
     dense = np.array([[float(v) for v in row] for row in M], dtype=float).reshape(n, n)
-    inp = dense if kind == "ndarray" else sp.csr_array(dense)
+    if kind == "ndarray":
+        inp = dense
+    elif kind == "csr_zeros":
+        # a sparse matrix assembled with explicitly stored 0.0 coefficients (every zero position is stored)
+        rows = [i for i in range(n) for j in range(n)]
+        cols = [j for i in range(n) for j in range(n)]
+        inp = sp.csr_array((dense.ravel().copy(), (rows, cols)), shape=(n, n))
+    else:
+        inp = sp.csr_array(dense)
     return QUBOContainer(inp, float(c), pat)
 
 
@@ -105,11 +113,17 @@ def observe(case, ising, tmpdir):
     qc = build(case)
     mem = memory_of(qc, ising)
     path = os.path.join(tmpdir, "p.rudy" if ising else "p.qubo")
+    both_before = (memory_of(qc, True), memory_of(qc, False))
     qc.export(path, as_ising=ising)
     with open(path, "rb") as fh:
         raw = fh.read()
     text = raw.decode("utf-8")
     out = {"mem": mem, "text": text, "jdiag_zero": True}
+    out["container_changed"] = (memory_of(qc, True), memory_of(qc, False)) != both_before
+    qc.export(path, as_ising=ising)
+    with open(path, "rb") as fh:
+        text2 = fh.read().decode("utf-8")
+    out["second_export_differs"] = text2.split("\n")[1:] != text.split("\n")[1:]
     if ising:
         out["jdiag_zero"] = all(mem[1][i][i] == 0 for i in range(mem[0]))
     try:
@@ -153,6 +167,10 @@ def oracle(obs, ising):
     n, Mat, h, c = mem
     if not obs["jdiag_zero"]:
         return "in-memory J has a non-zero diagonal entry"
+    if obs.get("container_changed"):
+        return "export: writing the file changed the in-memory problem (Q, J, h or a constant differs afterwards)"
+    if obs.get("second_export_differs"):
+        return "export: a second export of the same container writes different coefficient lines"
     try:
         consts, recs, _ = parse_file(obs["text"])
     except ValueError as e:
@@ -286,7 +304,7 @@ def gen_cases(rng, n_random):
             cases.append((M, c, pat, "ndarray"))
     for _ in range(n_random):
         M, c = gen_matrix(rng)
-        cases.append((M, c, rng.choice(PATTERNS), rng.choice(["ndarray", "csr"])))
+        cases.append((M, c, rng.choice(PATTERNS), rng.choice(["ndarray", "csr", "csr_zeros"])))
     return cases
 
 
